@@ -10,10 +10,10 @@ res="$dir/confirm.txt"; : > "$res"
 cd "$wt"
 mkdir -p "$crate/tests"; cp "$dir/demo.rs" "$crate/tests/demo.rs"
 feat="--features json-core,derive,postcard"; [ "$crate" = miniconf ] || feat=""
-( cd $crate && cargo test --offline $feat --test demo 2>&1 | grep -E "^test result|panicked|error" | head -5 ) > /tmp/confirm_$name.without 2>&1
+( cd $crate && cargo test --offline $feat --test demo 2>&1 | grep -E "^test result" | head -8 ) > /tmp/confirm_$name.without 2>&1
 echo "demo WITHOUT patch: $(grep -c 'test result: ok' /tmp/confirm_$name.without) ok-lines / $(grep -c 'FAILED' /tmp/confirm_$name.without) failed-lines" >> "$res"
 git apply "$dir/patch.diff" || { echo "patch does not apply" >> "$res"; }
-( cd $crate && cargo test --offline $feat --test demo 2>&1 | grep -E "^test result|panicked|error" | head -5 ) > /tmp/confirm_$name.with 2>&1
+( cd $crate && cargo test --offline $feat --test demo 2>&1 | grep -E "^test result" | head -8 ) > /tmp/confirm_$name.with 2>&1
 echo "demo WITH patch: $(grep -c 'test result: ok' /tmp/confirm_$name.with) ok-lines / $(grep -c 'FAILED' /tmp/confirm_$name.with) failed-lines" >> "$res"
 rm "$crate/tests/demo.rs"
 cargo test --workspace --no-fail-fast --offline 2>&1 | grep -E "^test result|^test .*FAILED" > /tmp/confirm_$name.suite
